@@ -63,7 +63,7 @@ func (x *Exec) ghostInitial(g *GhostVar) Value {
 // verifyFunc builds the VC of one function against its contract.
 func (p *Program) verifyFunc(fc *FuncContract) (u *Unit) {
 	u = &Unit{Name: fc.Key, Kind: "func", Props: fc.Props, Contract: fc, Timeout: fc.Timeout, Pkg: fc.Pkg}
-	fn := p.funcs[fc.Key]
+	fn := p.funcs[strings.SplitN(fc.Key, "@", 2)[0]]
 	if fn == nil {
 		u.Err = "function " + fc.Key + " not found in the program (renamed or removed?)"
 		u.VC = newVC(fc.Key)
@@ -90,7 +90,7 @@ func (p *Program) verifyFunc(fc *FuncContract) (u *Unit) {
 			}
 		}
 		if fc.NoWrites {
-			if prob := p.writesOnlyLocals(fn); prob != "" {
+			if prob := p.writesOnlyLocals(fn, fc.WritesVia...); prob != "" {
 				errs = append(errs, "no-writes: "+prob)
 			}
 		}
@@ -154,6 +154,7 @@ func (p *Program) verifyFunc(fc *FuncContract) (u *Unit) {
 		g := x.evalBoolClause(fr, &entry, r, opts)
 		x.vc.assume(g, "requires "+r.Src)
 		pres = append(pres, g)
+		x.assumeInstances(fr, &entry, r, opts, tTrue, "requires")
 	}
 	// vacuity: the precondition must be satisfiable
 	x.vc.oblige(&Obligation{Name: fc.Key + "#cover.pre", Kind: "cover", Func: fc.Key, Guard: tTrue, Goal: tTrue, Cover: true, Src: "requires are satisfiable"})
@@ -706,4 +707,80 @@ func openFinding(obl string) *KnownFinding {
 		}
 	}
 	return nil
+}
+
+// assumeInstances assumes the clause again for every declared instantiation of a ghost it mentions
+// (see GhostInstance).  The instance expression is evaluated in the state where the clause is assumed;
+// an instance whose expression cannot be evaluated there (names not in scope) is skipped.
+func (x *Exec) assumeInstances(fr *frame, st *State, cl Clause, opts *evalOpts, guard T, what string) {
+	if x.fc == nil {
+		return
+	}
+	for _, gi := range x.fc.Instances {
+		if !mentionsIdentDeep(x, cl.Expr, gi.Ghost) {
+			continue
+		}
+		for _, ie := range gi.Exprs {
+			func() {
+				defer func() {
+					if r := recover(); r != nil {
+						if _, ok := r.(structureError); !ok {
+							panic(r)
+						}
+					}
+				}()
+				o2 := *opts
+				o2.ghost = map[string]Value{}
+				for k, v := range opts.ghost {
+					o2.ghost[k] = v
+				}
+				// the instance term is evaluated with the plain options (it may use pre()/old())
+				iv := x.evalExpr(fr, st, ie.Expr, opts)
+				cur, has := opts.ghost[gi.Ghost]
+				if !has {
+					cur = x.evalIdent(fr, st, gi.Ghost, opts)
+				}
+				if sc, ok := cur.(Sc); ok {
+					if u, isU := iv.(Untyped); isU {
+						iv = x.coerceTo(u, sc.Sort, sc.Signed)
+					}
+					if isc, ok2 := iv.(Sc); ok2 && isc.Sort != sc.Sort {
+						iv = Sc{T: resize(isc.T, sc.W(), isc.Signed), Signed: sc.Signed}
+					}
+				}
+				o2.ghost[gi.Ghost] = iv
+				g := x.evalBoolClause(fr, st, cl, &o2)
+				x.vc.assume(mkImplies(guard, g), what+" instance "+gi.Ghost+" := "+ie.Src)
+			}()
+		}
+	}
+}
+
+// mentionsIdentDeep: the identifier occurs in the expression or in a macro it expands to.
+func mentionsIdentDeep(x *Exec, e ast.Expr, name string) bool {
+	seen := map[string]bool{}
+	var rec func(e ast.Expr) bool
+	rec = func(e ast.Expr) bool {
+		found := false
+		ast.Inspect(e, func(n ast.Node) bool {
+			if found {
+				return false
+			}
+			if id, ok := n.(*ast.Ident); ok {
+				if id.Name == name {
+					found = true
+					return false
+				}
+				if m := x.prog.contracts.Macros[id.Name]; m != nil && !seen[id.Name] {
+					seen[id.Name] = true
+					if rec(m.Body) {
+						found = true
+					}
+				}
+			}
+			return true
+		})
+		return found
+	}
+	return rec(e)
 }
